@@ -40,7 +40,11 @@ func c16Load(c *LCase, data []byte, allow bool) (*openapi3.T, error) {
 	}
 	u, _ := url.Parse(c.Root)
 	b, _ := c.fileBytes(c.Root)
-	return loader.LoadFromDataWithPath(b, u)
+	doc, err := loader.LoadFromDataWithPath(b, u)
+	// the location belongs to the caller again once the load has returned: what becomes of it is
+	// no concern of the document (InternalizeRefs names components after the location the document was loaded from)
+	u.Path, u.Host, u.Fragment = "/elsewhere/reused.json", "reused.example", "x"
+	return doc, err
 }
 
 var c16Containers = map[string]bool{"schemas": true, "parameters": true, "headers": true, "requestBodies": true, "responses": true, "examples": true,
